@@ -4,6 +4,8 @@ from engine.anl.origin import fmt, subterms, strip_bb
 from .common import S, co, calls_norm, is_call_term, var_name, render_path
 from . import C03
 
+from .common import ok_return_blocks as _okret
+
 EXPLANATION = (
     "Static decision of the shaping loop's structure: (R04.1) each hand-built padding frame is put_u8(discr(Command::Waste)) "
     "put_u32(0) put_u16(L') put_slice(zeros of length L) with L' a range-guarded cast of the same value L; (R04.2) the numeric "
@@ -234,7 +236,7 @@ def r6_flushed_before_success(ctx):
     cfg = ctx.cfg(body)
     ws = calls_norm(body, "AsyncWriteExt::write_all")
     fl = calls_norm(body, "AsyncWriteExt::flush")
-    ok_rets = [bi for kind, bi, si, rv in body.defs().get(0, []) if kind == "assign" and rv["r"] == "aggregate" and rv["kind"].get("variant") == "Ok"]
+    ok_rets = _okret(body, ctx.origins(body))
     if not ctx.floor("R04.6", "write_all calls in write_with_padding", len(ws), 4) or not fl or not ok_rets:
         ctx.missing("R04.6", "flush calls / Ok returns in write_with_padding")
         return
